@@ -14,7 +14,6 @@ import (
 	"google.golang.org/grpc"
 	"google.golang.org/grpc/codes"
 	"google.golang.org/grpc/status"
-	"google.golang.org/protobuf/proto"
 	"google.golang.org/protobuf/reflect/protoreflect"
 	"larking.io/larking"
 
@@ -401,7 +400,10 @@ func (w *Worker) Run(h History, draws int) *Outcome {
 				}
 			}
 			specs := httpSpecs[md.full]
-			for i := 0; i < draws; i++ {
+			// every binding at least twice (a stale or foreign handler is one of
+			// up to three picked at random), at least `draws` per method
+			nHTTP := max(draws, draws*len(specs)/3)
+			for i := 0; i < nHTTP; i++ {
 				s := specs[i%len(specs)]
 				if s.Unless != "" && len(m.live(s.Unless)) > 0 {
 					s = specs[0] // the path is claimed by the other service: ambiguous
@@ -424,5 +426,3 @@ func keys(m map[string]bool) []string {
 	sort.Strings(k)
 	return k
 }
-
-var _ = proto.Equal
